@@ -66,6 +66,9 @@ type Case struct {
 	// Inherit: the request carries the context the previous request on this API value had when it
 	// reached the outermost middleware
 	Inherit bool `json:"inherit"`
+	// Cancelled: the request's context is already cancelled when it is served (a client that went
+	// away): the API still has to answer exactly once
+	Cancelled bool `json:"cancelled"`
 	// Resp: index (mod count) of the response constructor the handler uses
 	Resp int `json:"resp"`
 	// extra, op-specific payload
@@ -390,6 +393,11 @@ func serve(p *Pkg, c *Case) string {
 		if c.Inherit && st.lastCtx != nil {
 			req = req.WithContext(st.lastCtx)
 			st.inherited = st.lastCtx
+		}
+		if c.Cancelled {
+			cctx, cancel := context.WithCancel(req.Context())
+			cancel()
+			req = req.WithContext(cctx)
 		}
 		apiPtr.Interface().(http.Handler).ServeHTTP(w, req)
 	}()
